@@ -1,7 +1,255 @@
 import IbModel.Util.Wire
-/-! Driver handlers for C08 (request kinds served for that property). -/
-namespace IB.D08
+import IbModel.Model.Pipeline
+/-!
+Driver handlers for C08.
 
-def handlers : List (String × (List String → String)) := []
+`GRAPH <n> <prog_0> … <prog_{n-1}> <schedule>`  — replay one linearisation (schedule = thread id per atomic
+step, digits) of `n` thread programs on the model of the shared pipeline graph (`IB.Graph.run`, the very
+function the theorems of `Props/C08.lean` are about) and answer with the lock-site trace, the final graph
+and every operation's outcome:
+
+`n=<nextId> N=<id>:<S|T|G>,… E=<from>-<to>,… T=(<tid><site><#nodes>.<#edges> after the step)… t0=<outcomes> t1=… `
+
+program = ops joined by `;` (`-` = empty):
+  `S<rows>`            from_vec of `(k,v)` rows (`k.v` joined by `_`)
+  `D<ref>/<fn>`        map/filter on an existing collection; fn ∈ `a<n>` v+n | `m<n>` v*n | `k<m>` k:=(k+v) mod m | `f<m>.<r>` keep v mod m ≠ r
+  `J<ref>/<ref>`       join_inner of two existing `(k,v)` collections
+  `C<ref>/<mode>`      collect (mode `s` | `p<parts>`; the model's answer does not depend on it)
+ref = `f<k>` pool[k mod len] | `b<k>` pool from the back | `m<k>` own results from the back (else pool)
+outcome = `B<id>` built | `C<id>:<sorted rows>` collected | `K` skipped | `P` panicked | `C<id>:ERR…`
+
+`GINV <nextId> <ids> <edges>` — evaluates the decidable graph invariant on a snapshot taken from the REAL
+pipeline after a free-running multi-threaded build (answer `T`/`F`).
+-/
+namespace IB.D08
+open IB.Wire IB.Graph
+
+inductive Fn where
+  | add (n : Int) | mul (n : Int) | rekey (m : Nat) | drop (m r : Nat)
+
+structure Row where
+  k : Int
+  v : Int
+  w : Option Int
+
+/-- a node inside a join's captured sub-chain (a nested `CoGroup` is only a marker: the engine bails) -/
+inductive Flat where
+  | src (rows : List Row) | op (f : Fn) | dummy | cog
+
+/-- node payload of the driver's instance of the graph model -/
+inductive ND where
+  | src (rows : List Row) | op (f : Fn) | dummy | cog (l r : List Flat)
+
+def ND.flat : ND → Flat
+  | .src rows => .src rows
+  | .op f => .op f
+  | .dummy => .dummy
+  | .cog _ _ => .cog
+
+def kit : Kit ND := ⟨.dummy, fun l r => .cog (l.map ND.flat) (r.map ND.flat)⟩
+
+def applyFn (f : Fn) (rows : List Row) : List Row :=
+  match f with
+  | .add n => rows.map (fun r => { r with v := r.v + n })
+  | .mul n => rows.map (fun r => { r with v := r.v * n })
+  | .rekey m => rows.map (fun r => { r with k := (r.k + r.v) % (Int.ofNat m) })
+  | .drop m r => rows.filter (fun x => x.v % (Int.ofNat m) != Int.ofNat r)
+
+/-- `run_subplan_seq` on a captured chain -/
+def runSub (chain : List Flat) : Except String (List Row) :=
+  let step := fun (acc : Except String (Option (List Row))) (n : Flat) =>
+    match acc with
+    | .error e => .error e
+    | .ok cur =>
+      match n with
+      | .src rows => .ok (some rows)
+      | .dummy => .ok (some [])
+      | .op f => match cur with
+        | some rows => .ok (some (applyFn f rows))
+        | none => .error "PANIC"
+      | .cog => .error "ERR-nested"
+  match chain.foldl step (.ok none) with
+  | .error e => .error e
+  | .ok (some rows) => .ok rows
+  | .ok none => .error "PANIC"
+
+def joinInner (l r : List Row) : List Row :=
+  l.flatMap (fun a => (r.filter (fun b => b.k == a.k)).map (fun b => { k := a.k, v := a.v, w := some b.v }))
+
+/-- `exec_seq` on the chain a collect planned (the planner passes do not change what a chain of plain
+    `map`/`filter` steps computes; that is property C03's business) -/
+def exec (chain : List ND) : Except String (List Row) :=
+  let step := fun (acc : Except String (Option (List Row))) (n : ND) =>
+    match acc with
+    | .error e => .error e
+    | .ok cur =>
+      match n with
+      | .src rows => .ok (some rows)
+      | .dummy => .ok (some [])
+      | .op f => match cur with
+        | some rows => .ok (some (applyFn f rows))
+        | none => .error "PANIC"
+      | .cog l r =>
+        match runSub l, runSub r with
+        | .ok a, .ok b => .ok (some (joinInner a b))
+        | .error e, _ => .error e
+        | _, .error e => .error e
+  match chain.foldl step (.ok none) with
+  | .error e => .error e
+  | .ok (some rows) => .ok rows
+  | .ok none => .error "ERR-empty"
+
+/-! ### wire -/
+
+def rowLe (a b : Row) : Bool :=
+  let wa := a.w.getD 0
+  let wb := b.w.getD 0
+  a.k < b.k || (a.k == b.k && (a.v < b.v || (a.v == b.v && wa ≤ wb)))
+
+def showRow (r : Row) : String :=
+  match r.w with
+  | none => s!"{r.k}.{r.v}"
+  | some w => s!"{r.k}.{r.v}.{w}"
+
+def showRows (rows : List Row) : String :=
+  if rows.isEmpty then "-" else "_".intercalate ((rows.mergeSort rowLe).map showRow)
+
+def parseRow? (s : String) : Option Row :=
+  match s.splitOn "." with
+  | [k, v] => do pure { k := (← parseInt? k), v := (← parseInt? v), w := none }
+  | _ => none
+
+def parseRows? (s : String) : Option (List Row) :=
+  if s == "" then some [] else (s.splitOn "_").mapM parseRow?
+
+def parseRef? (s : String) : Option Ref :=
+  let body := (s.drop 1).toString
+  match s.front, parseNat? body with
+  | 'f', some k => some (.front k)
+  | 'b', some k => some (.back k)
+  | 'm', some k => some (.mine k)
+  | _, _ => none
+
+def parseFn? (s : String) : Option Fn :=
+  let body := (s.drop 1).toString
+  match s.front with
+  | 'a' => (parseInt? body).map Fn.add
+  | 'm' => (parseInt? body).map Fn.mul
+  | 'k' => match parseNat? body with
+    | some m => if m = 0 then none else some (.rekey m)
+    | none => none
+  | 'f' => match body.splitOn "." with
+    | [m, r] => match parseNat? m, parseNat? r with
+      | some m, some r => if m = 0 then none else some (.drop m r)
+      | _, _ => none
+    | _ => none
+  | _ => none
+
+def parseOp? (s : String) : Option (Op ND) :=
+  let body := (s.drop 1).toString
+  match s.front with
+  | 'S' => (parseRows? body).map (fun rows => Op.source (.src rows))
+  | 'D' => match body.splitOn "/" with
+    | [r, f] => do pure (Op.derive (← parseRef? r) (.op (← parseFn? f)))
+    | _ => none
+  | 'J' => match body.splitOn "/" with
+    | [l, r] => do pure (Op.join (← parseRef? l) (← parseRef? r))
+    | _ => none
+  | 'C' => match body.splitOn "/" with
+    | [r, m] =>
+      if m == "s" || (m.startsWith "p" && (parseNat? (m.drop 1).toString).isSome) then (parseRef? r).map Op.collect
+      else none
+    | _ => none
+  | _ => none
+
+def parseProg? (s : String) : Option (List (Op ND)) :=
+  if s == "-" then some [] else (s.splitOn ";").mapM parseOp?
+
+def parseSched? (s : String) : Option (List Nat) :=
+  if s == "-" then some [] else
+  s.toList.mapM (fun ch => if '0' ≤ ch ∧ ch ≤ '9' then some (ch.toNat - '0'.toNat) else none)
+
+def siteCode (s : String) : String :=
+  match s with
+  | "begin" => "b"
+  | "insert_node" => "i"
+  | "connect" => "c"
+  | "snapshot" => "s"
+  | "record_metrics_start" => "m"
+  | "record_metrics_end" => "e"
+  | _ => "x"
+
+/-- run the schedule, recording the site each step goes through -/
+def runTraced (c : Cfg ND) (sched : List Nat) : Cfg ND × String :=
+  sched.foldl (fun (acc : Cfg ND × String) i =>
+    let site := match acc.1.threads[i]? with
+      | some th => siteCode (siteOf th)
+      | none => "x"
+    let c' := step kit acc.1 i
+    (c', acc.2 ++ toString i ++ site ++ toString c'.g.nodes.length ++ "." ++ toString c'.g.edges.length)) (c, "")
+
+def kindOf : ND → String
+  | .src _ => "S"
+  | .dummy => "S"
+  | .op _ => "T"
+  | .cog _ _ => "G"
+
+def showOutcome : Outcome ND → String
+  | .built id => s!"B{id}"
+  | .collected x none => s!"C{x}:ERR-missing-node"
+  | .collected x (some ch) =>
+    match exec ch with
+    | .ok rows => s!"C{x}:{showRows rows}"
+    | .error e => s!"C{x}:{e}"
+  | .skipped => "K"
+  | .panicked => "P"
+
+def commaOrDash (l : List String) : String := if l.isEmpty then "-" else ",".intercalate l
+
+def showCfg (c : Cfg ND) (trace : String) : String :=
+  let ns := commaOrDash (c.g.nodes.map (fun p => s!"{p.1}:{kindOf p.2}"))
+  let es := commaOrDash (c.g.edges.map (fun e => s!"{e.1}-{e.2}"))
+  let outs := (c.threads.zipIdx).map (fun (th, i) => s!"t{i}={commaOrDash (th.outs.map showOutcome)}")
+  s!"n={c.g.nextId} N={ns} E={es} T={if trace.isEmpty then "-" else trace} " ++ " ".intercalate outs
+
+def handleGraph : List String → String
+  | nTok :: rest =>
+    match parseNat? nTok with
+    | none => "BAD-OP"
+    | some n =>
+      if rest.length != n + 1 then "BAD-OP" else
+      match (rest.take n).mapM parseProg?, parseSched? (rest.getD n "") with
+      | some progs, some sched =>
+        if sched.any (fun i => i ≥ n) then "BAD-OP" else
+        let r := runTraced (Cfg.init progs) sched
+        showCfg r.1 r.2
+      | _, _ => "BAD-OP"
+  | _ => "BAD-OP"
+
+/-! ### the graph invariant as a decidable check on a real snapshot -/
+
+def parseNatList? (s : String) : Option (List Nat) :=
+  if s == "-" then some [] else (s.splitOn ",").mapM parseNat?
+
+def parseEdges? (s : String) : Option (List (Nat × Nat)) :=
+  if s == "-" then some [] else
+  (s.splitOn ",").mapM (fun e => match e.splitOn "-" with
+    | [a, b] => do pure ((← parseNat? a), (← parseNat? b))
+    | _ => none)
+
+/-- the graph part of `AInv` (`ids`, `edgeLt`, `inDeg`), executable; ids are given sorted -/
+def graphInvB (nextId : Nat) (ids : List Nat) (edges : List (Nat × Nat)) : Bool :=
+  ids == List.range nextId &&
+  edges.all (fun e => e.1 < e.2 && e.2 < nextId) &&
+  (edges.map Prod.snd).eraseDups.length == edges.length
+
+def handleGinv : List String → String
+  | [n, ids, es] =>
+    match parseNat? n, parseNatList? ids, parseEdges? es with
+    | some n, some ids, some es => boolStr (graphInvB n ids es)
+    | _, _, _ => "BAD-OP"
+  | _ => "BAD-OP"
+
+def handlers : List (String × (List String → String)) := [("GRAPH", handleGraph), ("GINV", handleGinv)]
 
 end IB.D08
